@@ -891,3 +891,11 @@ M("r4j-init-from-byte-offset-benign", ["C12", "C09"], "benign",
   [("yaep.c", "      ptr = bound - diff / sizeof (struct sit **);", "      ptr = (struct sit ***) ((char *) bound - diff);")])
 M("r26-cxx-table-with-other-functions", ["C16"], "break",
   [("yaep.c", "	new hash_table (grammar->alloc, toks_len * 4, reserv_mem_hash,\n			reserv_mem_eq);", "	new hash_table (grammar->alloc, toks_len * 4, trans_visit_node_hash,\n			trans_visit_node_eq);")], "R26")
+M("r4k-revert-F41-number-unbounded", ["C12", "C11"], "break",
+  [("sgramm.y", "		  if (yylval.num > (INT_MAX - (c - '0')) / 10)\n		    /* The number does not fit into int.  */\n		    yyerror (\"too big number\");\n", "")], "R4k")
+M("r4k-bound-before-multiplication-benign", ["C12", "C11"], "benign",
+  [("sgramm.y", "		  if (yylval.num > (INT_MAX - (c - '0')) / 10)", "		  if (yylval.num >= INT_MAX / 10 && (yylval.num > INT_MAX / 10 || c - '0' > INT_MAX % 10))")])
+M("c11-revert-F42-signed-char-code", ["C11"], "break",
+  [("sgramm.y", "	  term.code = (unsigned char) term.repr [1];", "	  term.code = term.repr [1];")], "C11-charcode")
+M("c11-charcode-mask-benign", ["C11"], "benign",
+  [("sgramm.y", "	  term.code = (unsigned char) term.repr [1];", "	  term.code = *(unsigned char *) (term.repr + 1);")])
